@@ -82,11 +82,16 @@ pub open spec fn elim_end(g: Gr, d: CompiledDfa, reps: Seq<StateID>, i: int) -> 
     // a state accepts only if it can be entered: the start state is never marked on its own account (the empty string is not accepted)
     if elim_entered(d, reps.len() as int, i) && (g.acc)(reps[i].0 as int) is Some { (true, TerminalID((g.acc)(reps[i].0 as int)->0 as u32)) } else { (false, TerminalID(0)) }
 }
+pub open spec fn has_rep(g: Gr, reps: Seq<StateID>, tg: StateID) -> bool {
+    exists|to: StateSetID| to.0 < reps.len() && #[trigger] same_closure(g, tg.0 as int, reps[to.0 as int].0 as int)
+}
 pub open spec fn elim_ok(g: Gr, d: CompiledDfa, reps: Seq<StateID>) -> bool {
     &&& reps_ok(g, reps) && reps.len() <= u32::MAX
     &&& d.states@.len() == reps.len() && d.end_states@.len() == reps.len()
     &&& forall|f: int, cc: CharClassID, to: StateSetID| 0 <= f < reps.len() ==> (#[trigger] d.states@[f].transitions@.contains((cc, to)) <==> elim_edge(g, reps, f, cc, to))
     &&& forall|f: int| 0 <= f < reps.len() ==> (#[trigger] d.states@[f]).transitions@.no_duplicates()
+    // every closure a state can move to has its own state
+    &&& forall|f: int, cc: CharClassID, tg: StateID| 0 <= f < reps.len() && #[trigger] fires(g, reps[f].0 as int, cc, tg) ==> has_rep(g, reps, tg)
     &&& forall|i: int| 0 <= i < reps.len() ==> #[trigger] d.end_states@[i] == elim_end(g, d, reps, i)
     &&& d.lookaheads@.len() == 0
 }
@@ -329,6 +334,11 @@ pub proof fn lemma_elim_final(g: Gr, d: CompiledDfa, reps: Seq<StateID>, t: Set<
             if to2.0 < to.0 { assert(!same_closure(g, reps[to2.0 as int].0 as int, reps[to.0 as int].0 as int)); }
             assert(to == to2);
         }
+    }
+    assert forall|f: int, cc: CharClassID, tg: StateID| 0 <= f < reps.len() && #[trigger] fires(g, reps[f].0 as int, cc, tg) implies has_rep(g, reps, tg) by {
+        assert(edge_present(g, t, reps, f, cc, tg));
+        let to = choose|to: StateSetID| to.0 < reps.len() && same_closure(g, tg.0 as int, reps[to.0 as int].0 as int) && #[trigger] t.contains((StateSetID(f as u32), cc, to));
+        assert(same_closure(g, tg.0 as int, reps[to.0 as int].0 as int));
     }
     assert forall|i: int| 0 <= i < reps.len() implies #[trigger] d.end_states@[i] == elim_end(g, d, reps, i) by {
         let a = (g.acc)(reps[i].0 as int);
